@@ -73,7 +73,7 @@ fn near_square_of<const L: usize>(t: u64) -> Uint<L> {
 
 //@ name=c20_k8_sqrt_1_all prop=C20,C11 tier=quick profile=k8 funcs="Uint::sqrt,Uint::wrapping_sqrt,Uint::checked_sqrt,SquareRoot::sqrt,Uint::div_rem" bound="u8 words, Uint<1>: every x (the MAX input with odd log2(BITS) included)" free_bits=8
 sqrt_forms!(c20_k8_sqrt_1_all, 1, any_uint());
-//@ name=c20_k8_sqrt_vartime_1_all prop=C20,C11,C15 tier=quick profile=k8 funcs="Uint::sqrt_vartime,Uint::wrapping_sqrt_vartime,Uint::checked_sqrt_vartime,SquareRoot::sqrt_vartime" bound="u8 words, Uint<1>: every x" free_bits=8
+//@ name=c20_k8_sqrt_vartime_1_all prop=C20,C11,C15 tier=quick profile=k8 funcs="Uint::sqrt_vartime,Uint::wrapping_sqrt_vartime,Uint::checked_sqrt_vartime,SquareRoot::sqrt_vartime" bound="u8 words, Uint<1>: every x" free_bits=8 core=C15
 sqrt_vartime_forms!(c20_k8_sqrt_vartime_1_all, 1, any_uint());
 //@ name=c20_k8_sqrt_2_near_squares prop=C20,C11 tier=thorough profile=k8 funcs="Uint::sqrt,Uint::checked_sqrt,Uint::div_rem" bound="u8 words, Uint<2>: x in {t^2-1, t^2, t^2+1} for every t < 2^8" free_bits=10
 sqrt_forms!(c20_k8_sqrt_2_near_squares, 2, near_square());
@@ -120,7 +120,7 @@ macro_rules! boxed_sqrt {
         }
     };
 }
-//@ name=c20_k8_boxed_sqrt_1_all prop=C20,C11,C15 tier=quick profile=k8 funcs="BoxedUint::sqrt,BoxedUint::checked_sqrt,BoxedUint::div_rem" bound="u8 words, BoxedUint 1 limb: every x; equals Uint<1>::sqrt" free_bits=8
+//@ name=c20_k8_boxed_sqrt_1_all prop=C20,C11,C15 tier=quick profile=k8 funcs="BoxedUint::sqrt,BoxedUint::checked_sqrt,BoxedUint::div_rem" bound="u8 words, BoxedUint 1 limb: every x; equals Uint<1>::sqrt" free_bits=8 core=C15
 boxed_sqrt!(c20_k8_boxed_sqrt_1_all, 1, any_uint());
 //@ name=c20_k8_boxed_sqrt_2_near_squares prop=C20,C11,C15 tier=thorough profile=k8 funcs="BoxedUint::sqrt,BoxedUint::checked_sqrt" bound="u8 words, BoxedUint 2 limbs: x in {t^2-1, t^2, t^2+1} for every t < 2^8" free_bits=10
 boxed_sqrt!(c20_k8_boxed_sqrt_2_near_squares, 2, near_square());
